@@ -145,6 +145,13 @@ CLAIMED = {
             "are recomputed from it before the evaluators; (R4) read_aux_frame reads rows row_idx and (row_idx + 1) % num_rows. No test can see a weakening of these (validate only rejects, and "
             "tests feed it valid traces). That the evaluators are the AIR's constraints, Assertion::apply's step set, and equality of trace tables built in different ways are not decided.",
             "rustc MIR; Air::* evaluators are user code; Assertion::apply enumerates the asserted steps (C21)", "DESIGN.md section 4, C29"),
+    "C23": ("symbolic reading of MIR operands (range bounds, call arguments), closure provenance, field-to-result provenance",
+            "Decides the shape clauses behind the property's first sentence: (R1) ConstraintDivisor::from_transition(n, k) has numerator [(n, ONE)] and exemption points "
+            "((n - k)..n).map(|step| get_trace_domain_value_at(n, step)) with no truncating adapter; (R2) get_trace_domain_value_at(n, step) = get_root_of_unity(ilog2(n)).exp(step); "
+            "(R3) TransitionConstraints::new builds and stores the divisor from context.trace_len() and context.num_transition_exemptions(), the count Trace::validate exempts (C29.R2); "
+            "(R4) degree() = numerator degree - exemptions.len(), evaluate_at divides the numerator by the product of (x - e) over all exemptions. Evaluation degrees, minimum blowup "
+            "factors, the number of composition columns and the periodic column polynomials are numerical and not decided.",
+            "rustc MIR; get_root_of_unity is a primitive root of the stated order (C11.R1)", "DESIGN.md section 4, C23"),
     "C16": ("abstract interpretation of the S-box code over monomial exponents (exponents.py) + call-order / constant rules",
             "Decides three structural clauses of the Rescue hashers (Rp62_248, Rp64_256, RpJive64_256): (R1) the exponent to which apply_sbox raises every state element, "
             "computed by interpreting its MIR with each element abstracted to its exponent (square -> 2e, product -> sum, helper calls and element-wise iterator "
@@ -177,7 +184,6 @@ NOT_APPLICABLE = {
     "C13": "Polynomial helper results are numerical; no invariant of the control-flow graph implies them.",
     "C18": "Root/opening consistency and parallel = sequential build are numerical; the rejection/no-panic part is C19.",
     "C21": "Assertion step sets / overlap detection are arithmetic case analysis over run-time integers; deciding exactness is enumeration, i.e. execution.",
-    "C23": "Divisor degrees, evaluation degrees and periodic polynomials are formulas over run-time integers/field values.",
 }
 
 # claimed in DESIGN.md but not built yet: listed as not applicable *for now* with that reason
